@@ -10,16 +10,48 @@ def _ret_one(S, fn, args):
     return rets, others
 
 
+def escape_writer(crate, reviewed_path):
+    """The function that writes a CharEscape for one string syntax: the reviewed tree has one per syntax
+    (`write_r6rs_char_escape`, `write_elisp_char_escape`); merged into one function with a syntax parameter it is found
+    by signature (a writer, a CharEscape, one fieldless private / public enum) and given that syntax's variant.
+    Returns (fn or None, {param index: value})."""
+    f = crate.fn(reviewed_path)
+    if f is not None:
+        return f, {}
+    want = "r6rs" if "r6rs" in reviewed_path else "elisp"
+    for g in crate.fns:
+        if g.kind not in ("fn", "assoc") or g.impl_trait or not g.file.endswith("print.rs"):
+            continue
+        tys = {i: g.local_ty(i) for i in range(1, g.arg_count + 1)}
+        if "print::CharEscape" not in tys.values() or not any(t.startswith("&mut ") for t in tys.values()):
+            continue
+        for i, t in tys.items():
+            a = crate.adts.get(t)
+            if a and a.get("kind") == "enum" and all(not v["fields"] for v in a["variants"]):
+                hit = [v for v in a["variants"] if v["name"].lower() == want]
+                if len(hit) == 1:
+                    return g, {i: Adt(t, hit[0]["idx"], [], hit[0]["name"])}
+    return None, {}
+
+
 def string_escape_text(crate, b, writer_fn_path):
     """Bytes the printer emits for byte `b` inside a string, or None if it is written raw.
 
     Composes ESCAPE[b] -> CharEscape::from_escape_table -> write_*_char_escape by constant
     propagation; returns ("raw", None) | ("esc", bytes) | ("error", reason)."""
-    wr = crate.fn(writer_fn_path)
+    wr, wr_extra = escape_writer(crate, writer_fn_path)
     # the classifier byte -> CharEscape: a function of the printer (inherent to CharEscape or free) over u8 arguments,
     # either (table entry, byte) -> CharEscape with the table lookup at the call site, or byte -> Option<CharEscape>
+    def bytelike(ty):
+        # a u8, or a private newtype around one (`struct EscapeClass(u8)`)
+        a = crate.adts.get(ty)
+        return ty == "u8" or bool(a and a.get("kind") == "struct" and [x["ty"] for x in a["variants"][0]["fields"]] == ["u8"])
+
+    def as_arg(ty, v):
+        return v if ty == "u8" else Adt(ty, 0, [v])
+
     cands = [f for f in crate.fns if f.kind in ("assoc", "fn") and not f.impl_trait and f.file.endswith("print.rs")
-             and 1 <= f.arg_count <= 2 and all(f.local_ty(i) == "u8" for i in range(1, f.arg_count + 1))
+             and 1 <= f.arg_count <= 2 and all(bytelike(f.local_ty(i)) for i in range(1, f.arg_count + 1))
              and f.local_ty(0) in ("print::CharEscape", "std::option::Option<print::CharEscape>")]
     if len(cands) != 1 or wr is None:
         return "error", "anchor missing: the byte classifier of print::CharEscape (%d candidates) / %s" % (len(cands), writer_fn_path)
@@ -31,9 +63,9 @@ def string_escape_text(crate, b, writer_fn_path):
             return "error", "print::ESCAPE missing"
         if esc[b] == 0:
             return "raw", None
-        rets, others = _ret_one(S, fet, {1: esc[b], 2: b})
+        rets, others = _ret_one(S, fet, {1: as_arg(fet.local_ty(1), esc[b]), 2: as_arg(fet.local_ty(2), b)})
     else:
-        rets, others = _ret_one(S, fet, {1: b})
+        rets, others = _ret_one(S, fet, {1: as_arg(fet.local_ty(1), b)})
     if len(rets) != 1 or not isinstance(rets[0].ret, Adt):
         return "error", "%s(0x%02X) does not yield one variant (%s)" % (fet.path, b, [p.end for p in others])
     if rets[0].ret.adt.endswith("Option"):
@@ -44,7 +76,10 @@ def string_escape_text(crate, b, writer_fn_path):
             return "error", "%s(0x%02X) yields an unknown escape" % (fet.path, b)
     variant = rets[0].ret
     S2 = sim.Sim([crate], inline=lex.print_inline(crate))
-    rets2, _ = _ret_one(S2, wr, {2: variant})
+    ce_i = [i for i in range(1, wr.arg_count + 1) if wr.local_ty(i) == "print::CharEscape"]
+    wargs = dict(wr_extra)
+    wargs[ce_i[0] if ce_i else 2] = variant
+    rets2, _ = _ret_one(S2, wr, wargs)
     texts = set()
     for p in rets2:
         ws = p.calls("std::io::Write::write_all")
